@@ -400,7 +400,7 @@ namespace
                if( rewind_required && o.pos != 0 ) viol( c, "fails-with-cursor-moved", "local failure (correct) but the cursor is " + std::to_string( o.pos ) + " byte(s) behind the start although rewind_mode::required was requested" );
             }
             else if( o.kind == K_OK ) viol( c, "syntax-false-accept", "no numeral of the documented syntax starts here, but the rule matched " + std::to_string( o.pos ) + " byte(s)" + ( c.has_state ? ", state holds " + od::to_string( o.stored ) : std::string() ) );
-            else viol( c, "unexpected-exception", "no numeral of the documented syntax starts here; expected a local failure, got parse_error '" + o.msg + "'" );
+            else viol( c, "syntax-false-accept", "no numeral of the documented syntax starts here; expected a local failure, but the input was taken for a numeral and parse_error '" + o.msg + "' was thrown" );
             break;
          case E_OK:
             if( o.kind == K_OK ) {
@@ -567,7 +567,7 @@ namespace
 
    // boundary magnitudes for a target with positive limit hi, negative magnitude limit lo (0: unsigned),
    // whose arithmetic is done in `bits` bits
-   std::vector< std::string > magnitudes( const u128 hi, const u128 lo, const unsigned bits, const std::uint64_t stream, const bool wide )
+   std::vector< std::string > magnitudes( const u128 hi, const u128 lo, const unsigned bits, const std::uint64_t stream, const bool wide, const unsigned thorough_per_len = 120 )
    {
       std::set< u128 > s;
       for( u128 v = 0; v <= 12; ++v ) s.insert( v );
@@ -604,7 +604,7 @@ namespace
       for( const u128 v : s )
          if( ndigits( v ) <= W + 2 ) out.insert( od::to_string( v ) );
       verif::rng r( V.seed * 1000003ull + stream );
-      const unsigned per_len = V.thorough() ? 120 : 8;
+      const unsigned per_len = V.thorough() ? thorough_per_len : 8;
       const std::string his = od::to_string( hi );
       for( unsigned len = 1; len <= W + 2; ++len )
          for( unsigned i = 0; i < per_len; ++i ) out.insert( random_numeral( r, len ) );
@@ -827,7 +827,7 @@ namespace
          for( cfg* c : swept )
             if( bytes == 1 || V.thorough() || k++ < 2 ) sweep( *c, n );
       }
-      auto mags = magnitudes( max, 0, 8 * bytes, stream * 131 + std::uint64_t( max % 1000003 ), false );
+      auto mags = magnitudes( max, 0, 8 * bytes, stream * 131 + std::uint64_t( max % 1000003 ), false, 24 );
       {
          // the limits of the underlying type matter as well (the arithmetic is done in T)
          std::set< u128 > s;
